@@ -5,7 +5,10 @@ NFT_CLAUSES = ["C14_Owner", "C14_ActOnlyOwner", "C14_OthersUntouched", "C14_Mint
                "C14_UpdateRestricted", "C14_ClassHandover", "C14_Ids", "C14_Supply", "Rejected_NoEffect",
                # round 7: the same statements read off the raw store (token records, owner keys, owner index of
                # every address, supply counters) next to the query results
-               "C14_StoreOwner", "C14_StoreSupply"]
+               "C14_StoreOwner", "C14_StoreSupply",
+               # audit after round 7: the same antecedents / expected values taken from the ledger of the ACCEPTED
+               # MESSAGES (ghosts own, hcls) instead of the module's own owner keys, flags and creators
+               "C14_HistOwner", "C14_HistAct", "C14_HistRestricted", "C14_HistSupply"]
 
 # negative probing / unusual inputs (round 7): antecedents exercised on every run by scenarios/nft_probe.ndjson
 # (written by scenarios/nft_mk_probe.py; driver cfg pre=1 = the IBC-style class "ibc/abc" in the genesis state)
